@@ -261,8 +261,27 @@ impl NameMap {
             }
         }
 
+        // Namespaces that contain a definition - directly or in a nested namespace - are the only namespaces that are written out
+        let mut used_namespaces = HashSet::new();
+        for (symbol, name_string) in &name_map.names {
+            if !matches!(symbol, NameSymbol::Namespace(_)) {
+                let mut namespace = name_string.namespace;
+                while let Some(current) = namespace {
+                    if !used_namespaces.insert(current) {
+                        break;
+                    }
+                    namespace = name_map.names[&NameSymbol::Namespace(current)].namespace;
+                }
+            }
+        }
+
         // Collect the names that can hide a root symbol from a path that does not start with ::
-        for name_string in name_map.names.values() {
+        for (symbol, name_string) in &name_map.names {
+            if let NameSymbol::Namespace(id) = symbol {
+                if !used_namespaces.contains(id) {
+                    continue;
+                }
+            }
             if let Some(namespace) = name_string.namespace {
                 let names = name_map.namespace_names.entry(namespace).or_default();
                 names.insert(name_string.name.clone());
